@@ -169,3 +169,81 @@ func GenDRALifecycleFamily(t *rapid.T) *World {
 	}
 	return w
 }
+
+// GenTwoBranchReclaimFamily builds saturated one-node clusters with two departments: d1 holds the reclaimer's queue
+// q-r and a sibling q-s, d2 holds q-o. The pending reclaimer needs more GPUs than the preemptible pods of either
+// branch hold, so the only scenario that places it takes victims from inside its own department AND from the other
+// department in one decision - the case in which an ancestor of the reclaimer is also an ancestor of a victim.
+// Quotas are drawn freely: in some worlds the reclaim is legitimate, in others it would leave d1 above its fair share
+// and more saturated than d2 and must not happen. Judged by the general C07 oracle.
+func GenTwoBranchReclaimFamily(t *rapid.T) *World {
+	w := &World{Family: "two-branch-reclaim"}
+	c := &w.Config
+	c.FullHierarchy = true
+	c.Actions = []string{"allocate", "reclaim"}
+	c.PlacementGPU = pickS(t, "placementGpu", "binpack", "spread")
+	c.PlacementCPU = "binpack"
+	c.MaxConsolidation = 16
+	c.ConsolidatingReclaim = chance(t, 3, "consolidatingReclaim")
+	c.SaturationMultiplier = pickS(t, "satMult", "", "", "1.2")
+	sNP, sP := between(t, 0, 3, "sNonPreemptible"), between(t, 1, 3, "sPreemptible")
+	oNP, oP := between(t, 0, 4, "oNonPreemptible"), between(t, 1, 3, "oPreemptible")
+	lo := sP
+	if oP > lo {
+		lo = oP
+	}
+	R := between(t, lo+1, sP+oP, "reclaimerGPUs")
+	G := sNP + sP + oNP + oP
+	w.Nodes = []Node{{Name: "n0", GPUs: G, GPUMem: 16000, CPU: 64000, MemMB: 131072, Pods: 110, Labels: map[string]string{}}}
+	free := QRes{Quota: -1, Limit: -1, Weight: 1}
+	q := func(name, parent string, quota int, weight float64) Queue {
+		return Queue{Name: name, Parent: parent, GPU: QRes{Quota: float64(quota), Limit: -1, Weight: weight}, CPU: free, Mem: free, CreatedMin: 100}
+	}
+	// non-preemptible pods run within the deserved quota of every level (C08), everything else is free
+	d1 := between(t, sNP, G, "d1Quota")
+	d2 := between(t, oNP, G, "d2Quota")
+	w.Queues = []Queue{
+		q("d1", "", d1, pickF(t, "d1W", 1, 1, 0, 2)), q("d2", "", d2, pickF(t, "d2W", 1, 1, 0, 2)),
+		q("q-r", "d1", between(t, 0, R+1, "qrQuota"), pickF(t, "qrW", 1, 0, 2)),
+		q("q-s", "d1", between(t, sNP, sNP+sP+1, "qsQuota"), pickF(t, "qsW", 1, 0, 2)),
+		q("q-o", "d2", between(t, oNP, oNP+oP+1, "qoQuota"), pickF(t, "qoW", 1, 0, 2)),
+	}
+	add := func(name, queue, preempt string, gpus int) {
+		w.Groups = append(w.Groups, Group{Name: name, Queue: queue, PriorityClass: "train", Preemptibility: preempt, MinMember: 1,
+			CreatedMin: 300 + len(w.Groups), LastStartMin: 1000,
+			Pods: []Pod{{Name: name + "-p0", CPU: 100, MemMB: 64, GPUs: gpus, State: Running, Node: "n0", CreatedMin: 300}}})
+	}
+	if sNP > 0 {
+		add("s-np", "q-s", "non-preemptible", sNP)
+	}
+	if oNP > 0 {
+		add("o-np", "q-o", "non-preemptible", oNP)
+	}
+	// the preemptible holdings: one pod per GPU, or one pod holding all of them
+	if chance(t, 5, "sOnePod") {
+		add("s-p", "q-s", "preemptible", sP)
+	} else {
+		for i := 0; i < sP; i++ {
+			add(fmt.Sprintf("s-p%d", i), "q-s", "preemptible", 1)
+		}
+	}
+	if chance(t, 5, "oOnePod") {
+		add("o-p", "q-o", "preemptible", oP)
+	} else {
+		for i := 0; i < oP; i++ {
+			add(fmt.Sprintf("o-p%d", i), "q-o", "preemptible", 1)
+		}
+	}
+	want := Group{Name: "want", Queue: "q-r", PriorityClass: "train", Preemptibility: "preemptible", MinMember: 1, CreatedMin: 10}
+	if chance(t, 3, "reclaimerGang") {
+		want.MinMember = R
+		for i := 0; i < R; i++ {
+			want.Pods = append(want.Pods, Pod{Name: fmt.Sprintf("want-p%d", i), CPU: 100, MemMB: 64, GPUs: 1, State: Pending, CreatedMin: 10})
+		}
+	} else {
+		want.Pods = []Pod{{Name: "want-p0", CPU: 100, MemMB: 64, GPUs: R, State: Pending, CreatedMin: 10}}
+	}
+	w.Groups = append(w.Groups, want)
+	w.Cycles = []CycleScript{{}}
+	return w
+}
